@@ -99,7 +99,8 @@ Other available commands:
 
 func doPerftDivide(perftArg string) {
 	depth, err := strconv.Atoi(perftArg)
-	if err != nil || depth <= 0 {
+	// every ply of depth takes one slot of the generator's fixed position stack
+	if err != nil || depth <= 0 || depth >= plyBufferCapacity {
 		fmt.Println("Invalid depth: ", perftArg)
 		return
 	}
@@ -112,7 +113,7 @@ func doPerftDivide(perftArg string) {
 
 func doTacticalPerftDivide(tperftArg string) {
 	depth, err := strconv.Atoi(tperftArg)
-	if err != nil || depth <= 0 {
+	if err != nil || depth <= 0 || depth >= plyBufferCapacity {
 		fmt.Println("Invalid depth: ", tperftArg)
 		return
 	}
@@ -259,6 +260,8 @@ out:
 			if err != nil || targetDepth < 1 {
 				return
 			}
+			// the best-line table is sized for MaxSearchDepth iterations
+			targetDepth = min(targetDepth, MaxSearchDepth)
 		}
 	}
 	var endtime time.Time
